@@ -265,14 +265,20 @@ def stepWith (caught : QErr → Bool) (s : State) : Op → State × Out
 /-- the repaired registry -/
 def step : State → Op → State × Out := stepWith caughtRepaired
 
+def runWith (caught : QErr → Bool) (s : State) : List Op → State
+  | [] => s
+  | op :: ops => runWith caught (stepWith caught s op).1 ops
+
+/-- the outputs along a run -/
+def outsWith (caught : QErr → Bool) (s : State) : List Op → List Out
+  | [] => []
+  | op :: ops => (stepWith caught s op).2 :: outsWith caught (stepWith caught s op).1 ops
+
 def run (s : State) : List Op → State
   | [] => s
   | op :: ops => run (step s op).1 ops
 
-/-- the outputs along a run -/
-def outs (s : State) : List Op → List Out
-  | [] => []
-  | op :: ops => (step s op).2 :: outs (step s op).1 ops
+def outs : State → List Op → List Out := outsWith caughtRepaired
 
 /-- which exception classes a list of handler names covers (the names come from the translator) -/
 def caughtOf (names : List String) (e : QErr) : Bool :=
